@@ -158,17 +158,12 @@ fn main() {
         uris.sort();
         // the first entry is never a disk write of the same uri, so its disk map is the initial disk,
         // except when the first entry itself is a disk step: then undo it
-        let mut disk0: BTreeMap<String, String> = st0["disk"]
+        let disk0: BTreeMap<String, String> = sc["disk0"]
             .as_object()
-            .unwrap()
+            .expect("disk0")
             .iter()
             .map(|(k, v)| (k.clone(), v.as_str().unwrap().to_string()))
             .collect();
-        if hist[0]["a"] == "disk" {
-            let u = hist[0]["uri"].as_str().unwrap().to_string();
-            let init = sc["disk0"][&u].as_str().unwrap_or("absent").to_string();
-            disk0.insert(u, init);
-        }
         for (u, t) in &disk0 {
             set_disk(&root, u, t, &outside);
         }
@@ -224,6 +219,15 @@ fn main() {
                             "change" => did_change(&uri, &text_of(t), 2),
                             "close" => did_close(&uri),
                             "save" => did_save(&uri),
+                            "rename" => {
+                                // the client renames the file on disk, then tells the server
+                                let newp = doc_path(root.as_ref(), t, outside.as_ref());
+                                let _ = std::fs::rename(doc_path(root.as_ref(), u, outside.as_ref()), &newp);
+                                (
+                                    "workspace/didRenameFiles".to_string(),
+                                    json!({"files": [{"oldUri": uri.to_string(), "newUri": uri_of(&newp).to_string()}]}),
+                                )
+                            }
                             "watch" => did_change_watched(&[(uri.clone(), 2)]),
                             "wdel" => did_change_watched(&[(uri.clone(), 3)]),
                             "cfg" => {
